@@ -201,6 +201,12 @@ func Yield() {
 	runtime.Gosched()
 }
 
+// Stress returns symbolic under the executor and native in the natively compiled
+// replay: a concurrency harness repeats its racy operation many more times
+// natively, so that a window the scheduler model found has a chance to open
+// under the real Go scheduler. The assertion labels are the same in both.
+func Stress(symbolic, native int) int { return native }
+
 // Jitter is a no-op for the symbolic executor (not a scheduling point); natively
 // it sleeps a random time up to maxMicros so that repeated replays of a
 // schedule-dependent counterexample explore different timings.
